@@ -10,7 +10,7 @@ ASSUMPTIONS = ["the OS frees a UDP port as soon as its socket is closed; foreign
 RULE = ("action sequences over {start, stop, occupy port i, release port i, send a valid broadcast to port i} on 2 configured ports: every "
         "sequence of length <= 3 (584) and random ones of length 4..9 (thorough: every sequence of length <= 4, and 3 ports), the "
         "state (is_running, who holds each port by a probe bind, delivered or not, start raised or not) observed after every action; "
-        "plus the async-context form; non-trivial = distinct sequences containing a start")
+        "plus the async-context form and broadcasts still in flight when stop() is called (sent without waiting, 0..4 loop cycles earlier); non-trivial = distinct sequences containing a start")
 REQUIREMENT = ("after every action: is_running iff the bridge holds every configured port; not running => it holds none (also after a "
                "failed start, which raises); a broadcast is delivered iff the bridge holds that port; stop twice / before start is "
                "harmless; start after stop works (Model/Lifecycle.v step, theorem C17_lifecycle)")
@@ -36,14 +36,23 @@ async def settle():
 
 async def run_seq(ports, acts):
     got = []; b = SwitcherBridge(lambda d: got.append(d), list(ports)); foreign = {}
-    tx = socket.socket(socket.AF_INET, socket.SOCK_DGRAM); out = ""
+    tx = socket.socket(socket.AF_INET, socket.SOCK_DGRAM); out = ""; late = 0; stopped_at = None
     try:
         for k, i in acts:
+            if k == 5:
+                # fire and forget: a broadcast is sent and only i // 8 loop cycles pass before the next action; whether it is delivered
+                # is not observed (and not modelled) - what matters is that nothing is delivered after a later stop() has returned
+                tx.sendto(valid_datagram(), ("127.0.0.1", ports[i % 8 % len(ports)]))
+                for _ in range(i // 8): await asyncio.sleep(0)
+                continue
+            if stopped_at is not None and len(got) > stopped_at: late += len(got) - stopped_at
+            stopped_at = None
             o = "."; p = ports[i] if i < len(ports) else None
             if k == 0:
                 try: await b.start(); o = "s"
                 except OSError: o = "!"
-            elif k == 1: await b.stop()
+            elif k == 1:
+                await b.stop(); stopped_at = len(got)
             elif k == 2:
                 if p not in foreign:
                     s = socket.socket(socket.AF_INET, socket.SOCK_DGRAM)
@@ -58,6 +67,7 @@ async def run_seq(ports, acts):
                     if len(got) > n0: break
                 o = "d" if len(got) > n0 else "x"
             await settle()
+            if stopped_at is not None and len(got) > stopped_at: late += len(got) - stopped_at; stopped_at = len(got)
             held = "".join("F" if q in foreign else ("-" if can_bind(q) else "B") for q in ports)
             out += ("R" if b.is_running else "r") + held + o + "|"
     finally:
@@ -69,11 +79,13 @@ async def run_seq(ports, acts):
         for t in list(b._transports.values()):       # release anything a broken start left behind
             if t and not t.is_closing(): t.close()
         await settle()
+    if late: out += "LATE=%d|" % late
     return out
 
 
 def spec_judge(n_ports, text):
     """the property's clauses on the observed trace, independent of the model"""
+    if "LATE=" in text: return "%s callback(s) made after stop() had returned" % text.split("LATE=")[1].rstrip("|")
     for step in text.split("|")[:-1]:
         run, held, o = step[0] == "R", step[1:1 + n_ports], step[-1]
         if run and any(h != "B" for h in held): return "is_running is True but not every configured port is held (%s)" % step
@@ -88,7 +100,7 @@ def run_sequences(out, stream, n_ports, seqs):
         for s in seqs: res.append(await run_seq(ports, s))
         return res
     io = asyncio.run(go())
-    mo = lib.run_model([lib.req("bridge", list(range(n_ports)), [[k, i] for k, i in s]) for s in seqs])
+    mo = lib.run_model([lib.req("bridge", list(range(n_ports)), [[k, i] for k, i in s if k != 5]) for s in seqs])
     # real sockets: a port can be taken by another process between two probes.  A sequence whose trace differs from the model's or
     # fails the Spec is run once more on fresh ports; only what reproduces is reported
     suspect = [k for k in range(len(seqs)) if io[k] != mo[k] or spec_judge(n_ports, io[k]) != "ok"]
@@ -102,7 +114,7 @@ def run_sequences(out, stream, n_ports, seqs):
             if t != io[k]:
                 out.notes.append("sequence %s gave %s, then %s on fresh ports: not reproducible, second run kept" % (seqs[k], io[k], t)); io[k] = t
     cases = [{"ports": n_ports, "acts": [list(a) for a in s]} for s in seqs]
-    names = ["start", "stop", "occupy", "release", "send"]
+    names = ["start", "stop", "occupy", "release", "send", "send-without-waiting"]
     lib.differential(out, stream, cases, io, mo, ["ok"] * len(cases), lambda c: "%d ports: " % c["ports"] + ", ".join(names[k] + ("" if k < 2 else " %d" % i) for k, i in c["acts"]),
                      nontrivial=lambda c: any(k == 0 for k, _ in c["acts"]), sample=lambda c: c, classify=lambda c, i: "len%d" % len(c["acts"]),
                      impl_spec=[spec_judge(n_ports, t) for t in io])
@@ -132,6 +144,11 @@ def run(tier, rnd, out):
     a3 = alphabet + [(2, 2), (3, 2), (4, 2)]
     seqs3 = [[rnd.choice(a3) for _ in range(rnd.randrange(2, 9))] for _ in range(60 if tier == "quick" else 1500)]
     run_sequences(out, "sequences-3-ports", 3, seqs3)
+    # broadcasts in flight when stop() is called: sent without waiting, 0..4 loop cycles before the next action
+    ff = [(5, p + 8 * c) for p in (0, 1) for c in range(5)]
+    seqs5 = [[(0, 0), f, (1, 0)] for f in ff] + [[(0, 0), f, g, (1, 0), (4, 0)] for f in ff for g in ff[::3]]
+    seqs5 += [[rnd.choice(alphabet + ff) for _ in range(rnd.randrange(3, 9))] for _ in range(60 if tier == "quick" else 1500)]
+    run_sequences(out, "broadcasts-in-flight-at-stop", 2, seqs5)
     got = asyncio.run(context_form())
     want = ["inside=True after: running=False free=True"] * 2
     lib.differential(out, "async-context", [{"body_raises": False}, {"body_raises": True}], got, None, want, lambda c: "async with bridge, body raises=%s" % c["body_raises"])
